@@ -44,7 +44,7 @@ func useCheck(id, fam string, tier common.Tier) int {
 		pkgs = []e1.UsePkg{e1.UPkgD, e1.UPkgU}
 		mixes = []e1.UseMix{{TestOnly: true}, {TestOnly: false}, {TestOnly: true, Allow: 4, AnnOrder: 1}}
 	} else {
-		pkgs = []e1.UsePkg{e1.UPkgU, e1.UPkgXU, e1.UPkgW, e1.UPkgVV, e1.UPkgD}
+		pkgs = []e1.UsePkg{e1.UPkgU, e1.UPkgXU, e1.UPkgW, e1.UPkgVV, e1.UPkgD, e1.UPkgXD}
 		for a := range e1.AllowShapes {
 			mixes = append(mixes, e1.UseMix{Allow: a})
 		}
